@@ -4,7 +4,7 @@ import math
 
 import numpy as np
 
-from .. import gen, probe, monitors_sle, monitors_ode
+from .. import gen, probe, core, monitors_sle, monitors_ode
 from ..dense import dense, mat
 from ..drive import call
 from ..shard import Workload
@@ -94,8 +94,23 @@ def steps(rng):
     return [pal[int(rng.integers(0, len(pal)))] for _ in range(n)]
 
 
+def caller_edits_own_identity(rng, dims):
+    """the caller builds an identity operator of the same mode sizes for its own purposes and edits its cores in place (scales them,
+    writes a defect into one): its own object - the integrators' internal identities must not know"""
+    if rng.random() < 0.2:
+        with probe.oracle():
+            E = tt.eye(list(dims))
+            for c in E.cores:
+                if rng.random() < 0.7:
+                    c *= float(rng.uniform(0.3, 0.7))
+            j = int(rng.integers(0, len(dims)))
+            E.cores[j][0, 0, 0, 0] = -2.0
+        core.ctx().events['caller_edited_an_identity_in_place'] += 1
+
+
 def setting(rng):
     dims = dims_for(rng)
+    caller_edits_own_identity(rng, dims)
     markov = rng.random() < 0.4
     if markov:
         A = markov_generator(rng, dims)
@@ -169,7 +184,7 @@ def w_implicit(ctx, rng, idx):
     ctx.describe({'op': scheme, 'dims': dims, 'markov': markov, 'complex': cplx, 'steps': hs, 'normalize': nz, 'tt_solver': tts, 'micro': micro})
     fn = getattr(ode, scheme)
     ok, sol = call('ode.' + scheme, fn, A, x0, g, hs, prop=P, refusals=(np.linalg.LinAlgError,), tt_solver=tts, micro_solver=micro, normalize=nz, progress=False,
-                   threshold=[0.0, 1e-14][int(rng.integers(0, 2))], repeats=int(rng.integers(1, 3)))
+                   threshold=[0.0, 1e-14][int(rng.integers(0, 2))], repeats=int(rng.integers(1, 3)) if rng.random() < 0.9 else 0)
     if ok:
         efn = ode.errors_impl_euler if scheme == 'implicit_euler' else ode.errors_trapezoidal
         call('ode.' + efn.__name__, efn, A, sol, hs, prop=P)
